@@ -12,11 +12,11 @@
 // usage: c02_slane <seed> <rounds> <perturb_permille> [scale]
 // output:
 //   O <sizeof lane> <off dq_state> <off dq_items_tail> <off dq_items_head> <off do_next> <off do_ref_cnt> <off dq_atomic_flags>
-//     <sizeof root queue> <nroots> <root array address> <ENQUEUED> <DIRTY> <ROLE_BASE_ANON>
+//     <sizeof root queue> <nroots> <root array address> <ENQUEUED> <DIRTY> <ROLE_BASE_ANON> <off do_targetq>
 //   R <round> <lane address> <kind> <nthreads> <nitems> <wakeup qos> <dq_priority> <initial dq_state> <final dq_state>
 //     <seq at begin> <seq at end> <ran> <max concurrently running> <order errors> <idle ok> <target root index>
 //   E ... (dv_record.h format; obj = round for the lane, 900 for the root-queue array, -1 untracked)
-// harness-level events (dv_user): DVU_CALL a=wakeup qos b=ticket / DVU_RET b=ticket around each dispatch_async_f,
+// harness-level events (dv_user): DVU_CALL a=wakeup qos + 256 * push qos, b=ticket / DVU_RET b=ticket around each dispatch_async_f,
 //   DVU_CALLOUT_BEGIN / DVU_CALLOUT_END a=ticket inside each work item.
 #include "internal.h"
 #include <inttypes.h>
@@ -32,8 +32,10 @@ static _Atomic int last_idx[MAXT];
 static int cur_round;
 static uint64_t round_rng;
 static dispatch_queue_t cur_q;
-static int cur_wq;
+static int cur_wq, cur_pq;
 static pthread_barrier_t bar;
+static __thread int in_call;
+static const uintptr_t off_tail = offsetof(struct dispatch_lane_s, dq_items_tail), off_head = offsetof(struct dispatch_lane_s, dq_items_head);
 
 static void sl_cb(const volatile void *addr, unsigned size, int kind, int order, unsigned long long a, unsigned long long b,
 		int ok, const char *file, int line) {
@@ -50,6 +52,14 @@ static void sl_cb(const volatile void *addr, unsigned size, int kind, int order,
 	if (dv_permille) {
 		uint64_t r = dv_rand(t);
 		if ((int)(r % 1000) < dv_permille) { if ((r >> 20) & 3) sched_yield(); else usleep((useconds_t)((r >> 24) % 60)); }
+		// aimed delays (delays only): widen the two windows of the MPSC push on the tracked lane
+		//   after the tail exchange, before the link store: the drainer meets a lagging enqueuer
+		//   after the head store of a push that found the list empty, before the probe / wakeup: a drainer that is still
+		//   active may take the item and empty the list first
+		if (hit && in_call && p - (uintptr_t)cur_q == off_tail && kind == 3 && (r >> 40) % 8 == 0)
+			usleep((useconds_t)(20 + (r >> 44) % 100));
+		if (hit && in_call && p - (uintptr_t)cur_q == off_head && kind == 2 && (r >> 40) % 4 == 0)
+			usleep((useconds_t)(40 + (r >> 44) % 200));
 	}
 	errno = saved_errno;
 }
@@ -82,8 +92,10 @@ static void *submitter(void *a) {
 		} else if (mode < 5) usleep((useconds_t)((r >> 40) % 30));
 		int k = atomic_fetch_add(&next_ticket, 1);
 		item_t *it = &items[k]; it->round = cur_round; it->ticket = k; it->thr = t->thr; it->idx = i;
-		dv_user(DVU_CALL, cur_round, (unsigned long long)cur_wq, (unsigned long long)k);
+		dv_user(DVU_CALL, cur_round, (unsigned long long)cur_wq | ((unsigned long long)cur_pq << 8), (unsigned long long)k);
+		in_call = 1;
 		dispatch_async_f(cur_q, it, work);
+		in_call = 0;
 		dv_user(DVU_RET, cur_round, 0, (unsigned long long)k);
 	}
 	return NULL;
@@ -103,13 +115,13 @@ int main(int argc, char **argv) {
 	uint64_t seed = argc > 1 ? strtoull(argv[1], 0, 10) : 1; int rounds = argc > 2 ? atoi(argv[2]) : 20;
 	int permille = argc > 3 ? atoi(argv[3]) : 200; int scale = argc > 4 ? atoi(argv[4]) : 1;
 	if (scale < 1) scale = 1;
-	printf("O %zu %zu %zu %zu %zu %zu %zu %zu %d %" PRIuPTR " %llu %llu %llu\n", sizeof(struct dispatch_lane_s),
+	printf("O %zu %zu %zu %zu %zu %zu %zu %zu %d %" PRIuPTR " %llu %llu %llu %zu\n", sizeof(struct dispatch_lane_s),
 			offsetof(struct dispatch_lane_s, dq_state), offsetof(struct dispatch_lane_s, dq_items_tail),
 			offsetof(struct dispatch_lane_s, dq_items_head), offsetof(struct dispatch_object_s, do_next),
 			offsetof(struct dispatch_lane_s, do_ref_cnt), offsetof(struct dispatch_lane_s, dq_atomic_flags),
 			sizeof(struct dispatch_queue_global_s), (int)_DISPATCH_ROOT_QUEUE_IDX_COUNT, (uintptr_t)&_dispatch_root_queues[0],
 			(unsigned long long)DISPATCH_QUEUE_ENQUEUED, (unsigned long long)DISPATCH_QUEUE_DIRTY,
-			(unsigned long long)DISPATCH_QUEUE_ROLE_BASE_ANON);
+			(unsigned long long)DISPATCH_QUEUE_ROLE_BASE_ANON, offsetof(struct dispatch_lane_s, do_targetq));
 	_Static_assert(offsetof(struct dispatch_continuation_s, do_next) == offsetof(struct dispatch_object_s, do_next), "do_next");
 	dv_install(seed, permille);
 	_dispatch_verif_cb = sl_cb;
@@ -127,7 +139,10 @@ int main(int argc, char **argv) {
 		else q = dispatch_queue_create(lbl, dispatch_queue_attr_make_with_qos_class(DISPATCH_QUEUE_SERIAL, AQ[kind - 8], kind == 9 ? -3 : 0));
 		dispatch_lane_t dl = upcast(q)._dl;
 		cur_q = q; cur_round = i; round_rng = r;
-		cur_wq = (int)_dispatch_queue_wakeup_qos(dl, _dispatch_queue_push_qos(dl, DISPATCH_QOS_UNSPECIFIED));
+		// dispatch_async_f: the continuation carries no priority on this build (no HAVE_PTHREAD_WORKQUEUE_QOS), so the qos
+		// _dispatch_lane_push receives is UNSPECIFIED; the two qos values it derives from dq_priority:
+		cur_pq = (int)_dispatch_queue_push_qos(dl, DISPATCH_QOS_UNSPECIFIED);
+		cur_wq = (int)_dispatch_queue_wakeup_qos(dl, (dispatch_qos_t)cur_pq);
 		atomic_store(&next_ticket, 0); atomic_store(&ran, 0); atomic_store(&inflight, 0); atomic_store(&maxinflight, 0);
 		atomic_store(&order_err, 0);
 		for (int k = 0; k < MAXT; k++) atomic_store(&last_idx[k], -1);
@@ -145,11 +160,13 @@ int main(int argc, char **argv) {
 		for (int k = 0; k < n; k++) pthread_join(th[k], NULL);
 		pthread_barrier_destroy(&bar);
 		// wait until every item ran and the lane is idle: unlocked, not enqueued, empty (plain reads: not recorded)
-		int idle = 0;
+		int idle = 0, last_ran = -1, still = 0;
 		for (int w = 0; w < 200000; w++) {
 			uint64_t st = *(volatile uint64_t *)&dl->dq_state;
 			if (atomic_load(&ran) == total && !(st & DISPATCH_QUEUE_DRAIN_OWNER_MASK) && !(st & DISPATCH_QUEUE_ENQUEUED) &&
 					!_dq_state_is_in_barrier(st) && dl->dq_items_tail == NULL) { idle = 1; break; }
+			if (atomic_load(&ran) != last_ran) { last_ran = atomic_load(&ran); still = 0; }
+			else if (++still > 30000) break;   // nothing ran for 1.5 s: stranded; report and stop
 			usleep(50);
 		}
 		usleep(300);   // let the last drainer leave the object (reference counts, root-queue bookkeeping)
@@ -158,6 +175,7 @@ int main(int argc, char **argv) {
 		printf("R %d %" PRIuPTR " %d %d %d %d %u %" PRIu64 " %" PRIu64 " %llu %llu %d %d %d %d %d\n", i, (uintptr_t)dl, kind, n, total,
 				cur_wq, (unsigned)dl->dq_priority, st0, st1, seq0, seq1, atomic_load(&ran), atomic_load(&maxinflight),
 				atomic_load(&order_err), idle, root_index(q->do_targetq));
+		if (!idle) break;    // the lane is stuck: later rounds would only wait; dump what was recorded
 		keep[nkeep++] = q;
 		if (nkeep == 48) {   // the recorder has 64 ranges: recycle them while nothing is in flight
 			dv_untrack_all();
